@@ -62,9 +62,20 @@ def main(argv):
         del argv[i:i + 2]
     names = argv or sorted(os.path.basename(p.rstrip("/")) for p in glob.glob(os.path.join(VERIF, "seeded", "*/"))
                            if os.path.exists(os.path.join(p, "patch.diff")))
+    # a change to what the Coq instances are generated from (gen_instances.py reads server_tap.py, database.py and
+    # db-schemas/) rebuilds the development in place: such a seed runs alone, after the others
+    def regenerates(name):
+        p = open(os.path.join(VERIF, "seeded", name, "patch.diff")).read()
+        return any(("+++ b/src/wormhole_mailbox_server/" + f) in p for f in ("server_tap.py", "database.py", "db-schemas/"))
+    alone = [n for n in names if regenerates(n)]
+    names = [n for n in names if n not in alone]
     with ThreadPoolExecutor(jobs) as ex:
         for name, res in ex.map(one, names):
             print(name, res, flush=True)
+    for n in alone:
+        print(*one(n), flush=True)
+    if alone:
+        run("./check build", cwd=VERIF)
 
 
 if __name__ == "__main__":
